@@ -10,6 +10,8 @@ CONSTANTS
   Mutex = TRUE
   ErrsCloser = "postgen"
   MainReadsErrs = TRUE
+  GenVariants = {1}
+  SlotRelease = "deferred"
   SkipRule = "nounderscore"
   TwoRuns = FALSE
   EmitCases = FALSE
